@@ -278,4 +278,50 @@ Non-trivial: initial window ≥ 2 bytes and ≥ 1 op; distinct = distinct query 
         let c = gen_case(&mut rng, thorough, i);
         run_case(w, &c);
     }
+    long_slides(w, thorough);
+}
+
+/// LONG slides (tens of millions of one-byte rolls without a rebuild), oracle only: the lazily reduced sums of the fast type
+/// must never leave the range in which its digest is the definition's — for a window built by `new` AND for one filled by
+/// `push` from empty (the operation counter is shared between `push` and `roll`: seed C17-K let a push swallow the tick that
+/// triggers the reduction, after which no roll ever reduces again and the sums wrap near 2.4e7 slides).
+fn long_slides(w: &mut Out, thorough: bool) {
+    let slides: u64 = if thorough { 60_000_000 } else { 27_000_000 };
+    for (built, wlen) in [("new", 8192usize), ("push", 8192), ("push", 5000), ("push", 65536)] {
+        let res = guarded(move || {
+            let mut win: VecDeque<u8> = (0..wlen).map(|_| 0xFFu8).collect();
+            let init: Vec<u8> = win.iter().copied().collect();
+            let (mut f, mut r) = if built == "new" {
+                (FastRollingChecksum::new(&init), RollingChecksum::new(&init))
+            } else {
+                let (mut f, mut r) = (FastRollingChecksum::new(&[]), RollingChecksum::new(&[]));
+                for x in &init { f.push(*x); r.push(*x); }
+                (f, r)
+            };
+            let mut bad: Option<String> = None;
+            for k in 0..slides {
+                let o = win.pop_front().unwrap_or(0);
+                let nb = 0xFFu8 - ((k % 3) as u8);
+                win.push_back(nb);
+                f.roll(o, nb);
+                r.roll(o, nb);
+                if k % 1_000_000 == 999_999 || k + 1 == slides {
+                    let (a, b) = spec_from_scratch(&win);
+                    let want = spec_digest(a, b);
+                    if f.digest() != want || r.digest() != want {
+                        bad = Some(format!("after {} slides of a {wlen}-byte window built by `{built}`: fast digest {} / plain digest {} / definition {want}", k + 1, f.digest(), r.digest()));
+                        break;
+                    }
+                }
+            }
+            bad
+        });
+        w.count("long-slides");
+        let l = 0;
+        match res {
+            Ok(None) => {}
+            Ok(Some(m)) => w.fail(l, "digest-differs-from-definition", &m),
+            Err(()) => w.fail(l, "checksum-panic", &format!("panic during a long slide of a {wlen}-byte window built by `{built}`")),
+        }
+    }
 }
